@@ -273,14 +273,14 @@ impl private::StoreCallbacks<TextResource> for AnnotationStore {
     fn preremove(&mut self, handle: TextResourceHandle) -> Result<(), StamError> {
         if let Some(annotations) = self.resource_annotation_metamap.data.get(handle.as_usize()) {
             for a_handle in annotations.clone() {
-                <AnnotationStore as StoreFor<Annotation>>::remove(self, a_handle)?;
+                self.remove_dependent_annotation(a_handle)?;
             }
         }
         if let Some(map) = self.textrelationmap.data.get(handle.as_usize()) {
             let mut annotations: BTreeSet<AnnotationHandle> = BTreeSet::new();
             annotations.extend(map.data.iter().flatten());
             for a_handle in annotations {
-                <AnnotationStore as StoreFor<Annotation>>::remove(self, a_handle)?;
+                self.remove_dependent_annotation(a_handle)?;
             }
         }
         self.resource_annotation_metamap.remove_all(handle);
@@ -490,7 +490,7 @@ impl private::StoreCallbacks<Annotation> for AnnotationStore {
         if let Some(handles) = self.annotation_annotation_map.get(handle) {
             //annotations that point at us (we clone to lose the reference and not break exclusive mutable borrow rules)
             for a_handle in handles.clone() {
-                <AnnotationStore as StoreFor<Annotation>>::remove(self, a_handle)?;
+                self.remove_dependent_annotation(a_handle)?;
             }
         }
         self.annotation_annotation_map.remove_all(handle);
@@ -608,12 +608,12 @@ impl private::StoreCallbacks<AnnotationDataSet> for AnnotationStore {
             }
         }
         for a_handle in annotations {
-            <AnnotationStore as StoreFor<Annotation>>::remove(self, a_handle)?;
+            self.remove_dependent_annotation(a_handle)?;
         }
         if let Some(annotations) = self.dataset_annotation_metamap.data.get(handle.as_usize()) {
             //remove annotations that point at us (we clone to lose the reference and not break exclusive mutable borrow rules)
             for a_handle in annotations.clone() {
-                <AnnotationStore as StoreFor<Annotation>>::remove(self, a_handle)?;
+                self.remove_dependent_annotation(a_handle)?;
             }
         }
         self.dataset_annotation_metamap.remove_all(handle);
@@ -2015,6 +2015,16 @@ impl AnnotationStore {
         }
     }
 
+    /// Removes an annotation as part of a cascade. Dependents that are reachable along several paths
+    /// may already have been removed by an earlier step of the same cascade, those are skipped.
+    fn remove_dependent_annotation(&mut self, handle: AnnotationHandle) -> Result<(), StamError> {
+        if let Some(Some(_)) = self.annotations.get(handle.as_usize()) {
+            <AnnotationStore as StoreFor<Annotation>>::remove(self, handle)
+        } else {
+            Ok(())
+        }
+    }
+
     /// Remove an annotation, and all annotations that reference it
     pub fn remove_annotation(&mut self, item: impl Request<Annotation>) -> Result<(), StamError> {
         self.remove(item)
@@ -2050,8 +2060,12 @@ impl AnnotationStore {
                 {
                     for a_handle in annotations.clone() {
                         delete.push((set_handle, data_handle, a_handle));
+                        if let Some(None) | None = self.annotations.get(a_handle.as_usize()) {
+                            //already removed earlier in this cascade
+                            continue;
+                        }
                         if strict {
-                            <AnnotationStore as StoreFor<Annotation>>::remove(self, a_handle)?;
+                            self.remove_dependent_annotation(a_handle)?;
                         } else {
                             let annotation = self.get_mut(a_handle)?;
                             let prelen = annotation.raw_data().len();
@@ -2059,7 +2073,7 @@ impl AnnotationStore {
                             let postlen = annotation.raw_data().len();
                             if postlen == 0 && prelen > 0 {
                                 //we deleted all its data, so just delete the entire annotation
-                                <AnnotationStore as StoreFor<Annotation>>::remove(self, a_handle)?;
+                                self.remove_dependent_annotation(a_handle)?;
                             }
                         }
                     }
@@ -2068,7 +2082,7 @@ impl AnnotationStore {
                 if let Some(annotations) = self.data_annotation_metamap.get(set_handle, data_handle)
                 {
                     for a_handle in annotations.clone() {
-                        <AnnotationStore as StoreFor<Annotation>>::remove(self, a_handle)?;
+                        self.remove_dependent_annotation(a_handle)?;
                     }
                 }
 
@@ -2110,7 +2124,7 @@ impl AnnotationStore {
 
                 if let Some(annotations) = self.key_annotation_metamap.get(set_handle, key_handle) {
                     for a_handle in annotations.clone() {
-                        <AnnotationStore as StoreFor<Annotation>>::remove(self, a_handle)?;
+                        self.remove_dependent_annotation(a_handle)?;
                     }
                 }
 
